@@ -1264,27 +1264,26 @@ private:
   /***/
   QUILL_ATTRIBUTE_HOT void _flush_and_run_active_sinks(bool run_periodic_tasks, std::chrono::milliseconds sink_min_flush_interval)
   {
-    // Populate the active sinks cache with unique sinks, consider only the valid loggers
+    // Populate the active sinks cache with unique sinks. A logger that is marked for removal still
+    // owns its sinks until the backend erases it, and statements logged through it before the
+    // removal may just have been written: its sinks are flushed as well
     _logger_manager.for_each_logger(
       [this](LoggerBase* logger)
       {
-        if (logger->is_valid_logger())
+        for (std::shared_ptr<Sink> const& sink : logger->sinks)
         {
-          for (std::shared_ptr<Sink> const& sink : logger->sinks)
-          {
-            Sink* logger_sink_ptr = sink.get();
-            auto search_it = std::find_if(_active_sinks_cache.begin(), _active_sinks_cache.end(),
-                                          [logger_sink_ptr](Sink* elem)
-                                          {
-                                            // no one else can remove the shared pointer as this is
-                                            // only running on backend thread
-                                            return elem == logger_sink_ptr;
-                                          });
+          Sink* logger_sink_ptr = sink.get();
+          auto search_it = std::find_if(_active_sinks_cache.begin(), _active_sinks_cache.end(),
+                                        [logger_sink_ptr](Sink* elem)
+                                        {
+                                          // no one else can remove the shared pointer as this is
+                                          // only running on backend thread
+                                          return elem == logger_sink_ptr;
+                                        });
 
-            if (search_it == std::end(_active_sinks_cache))
-            {
-              _active_sinks_cache.push_back(logger_sink_ptr);
-            }
+          if (search_it == std::end(_active_sinks_cache))
+          {
+            _active_sinks_cache.push_back(logger_sink_ptr);
           }
         }
 
